@@ -228,7 +228,7 @@ theorem J.exchange {cfg : Cfg} {rep : Bytes} {etag : Option Bytes} {code : Nat} 
       rw [hhandle]
       obtain ⟨hs1, hs2, hs3, hs4, hs5⟩ := respond_spec s cfg.payload none c
       obtain ⟨hk1, hk2, hk3, hk4⟩ := respond_const s cfg.payload none c
-      rw [step_b1_none hs3]
+      rw [step_b1_none_final hs3 (by rw [hs2]; exact hcode)]
       have := J_complete cfg cur0 _ _ hk4 (by rw [hs2, hk3]) (by rw [hs4, hk2])
         (by rw [hk1]; exact hs5)
       rw [hk1, hk2, hk3] at this
@@ -299,6 +299,12 @@ theorem J.exchange {cfg : Cfg} {rep : Bytes} {etag : Option Bytes} {code : Nat} 
     have hnew : a.payload ++ (sliceResp s k z none).payload = s.rep.take (k + blockSize z) := by
       simp only [sliceResp]
       rw [hapay, take_append_slice]
+    have hnogrow : szxGrows cur0 ⟨k / blockSize z, decide (k + blockSize z < s.rep.length), z⟩ = false := by
+      unfold szxGrows
+      rw [hcb2]
+      simp only [decide_eq_false_iff_not]
+      omega
+    rw [if_neg (by simp [hnogrow])]
     rw [if_neg (by simp [sliceResp, hacode])]
     simp only [hvalid, Bool.not_true, Bool.false_eq_true, ↓reduceIte, hstart, halen, ne_eq,
       not_true_eq_false]
